@@ -17,6 +17,11 @@ type(result) is float (or a numpy floating subclass of float) on every path.
 The basis letters mean what the STATE's unitary dictionary says (states with X / Y overridden: oracle with the state's matrices);
 histories: parameters changed on the same object (fit, `p.data = new`, in-place through `.data`), argument buffers (target tensor,
 dict of rotated targets, samples, sample_bases) overwritten in place between calls; call forms: keyword and documented positional order.
+Near-degenerate regimes (seed round 4): density-matrix targets eps away from a special case (nearly pure, nearly rank-deficient, nearly maximally
+mixed, nearly equal eigenvalues, nearly commuting with the state, nearly the state itself; eps 3e-13 .. 1e-4 on both sides of the usual isclose /
+clean-up thresholds), nearly pure MODEL states (weights_U scaled by 1e-5 .. 1e-1), vector targets nearly equal / nearly orthogonal to the state and
+targets with tiny non-zero Born probabilities (KL).  For these the Uhlmann oracle is evaluated with mpmath (40 digits; numpy fallback) and the
+tolerance is the first-order effect of an absolute perturbation 1e-14 of the spectrum of sqrt(t) rho sqrt(t) (measured: unchanged tree <= 0.1 of it).
 """
 import itertools, math, time
 import numpy as np
@@ -40,7 +45,12 @@ RULE = ("state type in {positive, complex, mixed} x nv 1..3 (thorough 1..4) x nh
         "space, bases|sample_bases); per state two argument-buffer histories (ONE target tensor, one dict of pre-rotated tensors, one sample tensor and one "
         "sample_bases array whose content is replaced in place between two rounds of fidelity / KL / NLL calls); complex and mixed states that carry their OWN unitary dictionary (X and/or Y random "
         "unitaries, Z untouched; numpy oracle with the state's matrices; fixed ones first, then one full draw per type and size); states built through "
-        "the constructors' module= form with an RBM of the library; a fixed seed-independent block of all these regimes runs first; a case is (fn, state, shape, parameter draw, call form, target/bases/samples); non-trivial := "
+        "the constructors' module= form with an RBM of the library; NEAR-DEGENERATE inputs: density-matrix targets (1-eps)*special + eps*noise for the families "
+        "pure+white / pure+random / basis+white / rank-k+random noise, I/d + eps*H, two eigenvalues equal up to 1+eps, f(rho)+eps*noise (nearly commuting), "
+        "rho+eps*noise (nearly the own state), eps on a fixed grid 3e-13..1e-4 (both sides of 1e-12, 1e-10, 1e-8, isclose's 1e-5 purity threshold) and log-uniform in "
+        "the random stream; nearly pure MODEL states (weights_U of both networks scaled by 1e-5..1e-1: 1 - purity 1e-11..1e-3); vector targets own + delta*perp, "
+        "perp + delta*own, basis + sqrt(eps)*noise (fidelity and KL, tiny non-zero target probabilities); Uhlmann oracle in mpmath with a spectrum-adaptive tolerance; "
+        "a fixed seed-independent block of all these regimes runs first; a case is (fn, state, shape, parameter draw, call form, target/bases/samples); non-trivial := "
         "non-real target or a basis containing Y or a mixed batch of bases")
 ASSUMPTIONS = [
     "np.linalg.eigvals returns the spectrum of its argument (mixed-state fidelity: eigenvalue oracle of the model)",
@@ -121,6 +131,44 @@ def uhlmann(t, r):
     return float(np.sum(np.sqrt(np.clip(w, 0, None))) ** 2)
 
 
+SPEC_DELTA = 1e-14    # absolute perturbation of the spectrum of sqrt(t) rho sqrt(t) the implementation is allowed (float64 eigenvalues of a
+                      # product with entries <= 1: backward error ~1e-16 x modest non-normality).  Measured on the unchanged tree over the families
+                      # below, eps 1e-16..1e-3, d = 2..16: error <= 0.1 x the tolerance derived from it
+
+
+def uhlmann_hp(t, r):
+    """Uhlmann fidelity of the trace-normalised Hermitian matrices t, r, accurate also when t or r is nearly singular:
+    mpmath at 40 digits (Hermitian eigendecompositions only); returns (F, spectrum of sqrt(t) r sqrt(t), oracle kind).
+    Fallback without mpmath: the float64 eigh oracle (its own error is of the size of the tolerance: the caller doubles it)."""
+    try:
+        import mpmath as mp
+    except Exception:
+        st = psd_sqrt(t / np.real(np.trace(t)))
+        w = np.clip(np.linalg.eigvalsh(st @ (r / np.real(np.trace(r))) @ st), 0, None)
+        return float(np.sum(np.sqrt(w)) ** 2), [float(x) for x in w], "numpy"
+    with mp.workdps(40):
+        d = t.shape[0]
+        cv = lambda a: mp.matrix([[mp.mpc(float(np.real(a[i, j])), float(np.imag(a[i, j]))) for j in range(d)] for i in range(d)])
+        T, R = cv(t), cv(r)
+        T, R = (T + T.H) / 2, (R + R.H) / 2
+        T = T / sum(T[i, i].real for i in range(d))
+        R = R / sum(R[i, i].real for i in range(d))
+        w, V = mp.eigh(T)
+        S = V * mp.diag([mp.sqrt(x) if x > 0 else mp.mpf(0) for x in w]) * V.H
+        M = S * R * S
+        ev = mp.eigh((M + M.H) / 2, eigvals_only=True)
+        ev = [x if x > 0 else mp.mpf(0) for x in ev]
+        tr = sum(mp.sqrt(x) for x in ev)
+        return float(tr * tr), [float(x) for x in ev], "mpmath"
+
+
+def spectrum_tol(F, spec, kind):
+    """|dF| for an absolute perturbation SPEC_DELTA of every eigenvalue: F = (sum sqrt lam)^2, |d sqrt lam| <= min(sqrt(delta), delta / sqrt(lam))"""
+    sd = math.sqrt(SPEC_DELTA)
+    e = sum(min(sd, SPEC_DELTA / math.sqrt(x)) if x > 0 else sd for x in spec)
+    return (1e-9 + 2.0 * math.sqrt(max(F, 0.0)) * e) * (2.0 if kind == "numpy" else 1.0)
+
+
 # ------------------------------------------------------------------ conversions
 def t2c(x):
     """(2, ...) torch/numpy real pair tensor -> numpy complex"""
@@ -160,8 +208,10 @@ def is_plain_number(r):
 
 
 # ------------------------------------------------------------------ states
-def new_state_case(ctx, kind, nv, nh, na, large_bias=False, udict=False, via_module=False):
+def new_state_case(ctx, kind, nv, nh, na, large_bias=False, udict=False, via_module=False, near_pure=None):
     extra = {}
+    if near_pure and kind == "mixed":
+        extra["near_pure"] = float(near_pure)
     if udict and kind != "positive":
         # the state's own dictionary: X and / or Y are random unitaries (Z untouched: it is the reference basis throughout)
         which = [["X", "Y"], ["X"], ["Y"]][int(ctx.rng.integers(3))]
@@ -179,8 +229,14 @@ def new_state_case(ctx, kind, nv, nh, na, large_bias=False, udict=False, via_mod
         # peaked state: one visible bias of magnitude 20..30 -> Born probabilities down to ~1e-13 (still far above the clamp)
         vb = am[2] if kind == "mixed" else am[1]
         vb[int(ctx.rng.integers(nv))] = float(ctx.rng.choice([-1.0, 1.0]) * ctx.rng.uniform(20.0, 30.0))
+    ph = gen.plist(*ph) if ph is not None else None
+    if near_pure and kind == "mixed":
+        # nearly pure MODEL state: the visible-auxiliary couplings of both networks scaled by delta (delta = 0 is a pure state;
+        #   1 - tr(rho^2) ~ delta^2: 1e-11 .. 1e-3 for delta = 1e-5 .. 1e-1)
+        am[1] = (np.array(am[1], dtype=float) * float(near_pure)).tolist()
+        ph[1] = (np.array(ph[1], dtype=float) * float(near_pure)).tolist()
     return dict({"state": kind, "nv": nv, "nh": nh, "na": na if kind == "mixed" else None, "large_bias": bool(large_bias),
-                 "am": am, "ph": gen.plist(*ph) if ph is not None else None}, **extra)
+                 "am": am, "ph": ph}, **extra)
 
 
 def set_params(s, case):
@@ -370,6 +426,75 @@ def rand_target(ctx, tab, form, as_matrix=None):
     return A / np.real(np.trace(A))
 
 
+# ------------------------------------------------------------------ near-degenerate targets
+NEAR_EPS = [3e-13, 1e-12, 1e-10, 3e-9, 1e-8, 1e-7, 1e-6, 2e-6, 4e-6, 6e-6, 1e-5, 1e-4]     # both sides of 1e-12 / 1e-10 / 1e-8 clean-up thresholds and of
+                                                                                       # isclose(purity, 1) (1 - purity ~ 2 eps <= 1e-5)
+NEAR_MIXED = ["pure+white", "pure+rand", "basis+white", "rank-k+rand", "maxmixed+epsH", "near-equal-eigs", "near-commuting", "near-self"]
+NEAR_PURE = ["near-self", "near-orthogonal", "near-basis"]
+
+
+def near_eps(rng):
+    return float(10.0 ** rng.uniform(-12.5, -4.0))
+
+
+def near_target(ctx, tab, family, eps, as_matrix=None):
+    """a legal normalised target at distance ~eps from a special case of the fidelity / KL formulas"""
+    rng = ctx.rng
+    d = len(tab.sp)
+    if as_matrix is None:
+        as_matrix = tab.mixed
+    cvec = lambda: (lambda v: v / np.linalg.norm(v))(rng.normal(size=d) + 1j * rng.normal(size=d))
+
+    def crho(r=d):
+        G = rng.normal(size=(d, r)) + 1j * rng.normal(size=(d, r))
+        A = G @ G.conj().T
+        return A / np.real(np.trace(A))
+    if not as_matrix:
+        own = tab.own if not tab.mixed else cvec()
+        p = cvec()
+        p = p - np.vdot(own, p) * own
+        p = p / np.linalg.norm(p)
+        ph = np.exp(1j * rng.uniform(0, 2 * np.pi))
+        if family == "near-self":            # 1 - F ~ eps^2: eps here is the AMPLITUDE of the orthogonal admixture
+            t = own + eps * p
+        elif family == "near-orthogonal":    # F ~ eps^2
+            t = p + eps * own
+        else:                                # near-basis: Born probabilities ~ eps / d beside one of ~1
+            t = np.zeros(d, dtype=complex); t[int(rng.integers(d))] = 1.0
+            t = t + math.sqrt(eps) * cvec()
+        return ph * t / np.linalg.norm(t)
+    if family in ("pure+white", "pure+rand", "basis+white"):
+        if family == "basis+white":
+            v = np.zeros(d, dtype=complex); v[int(rng.integers(d))] = 1.0
+        else:
+            v = cvec()
+        noise = crho() if family == "pure+rand" else np.eye(d) / d
+        t = (1 - eps) * np.outer(v, v.conj()) + eps * noise
+    elif family == "rank-k+rand":
+        k = int(rng.integers(1, d)) if d > 1 else 1
+        t = (1 - eps) * crho(k) + eps * crho()
+    elif family == "maxmixed+epsH":
+        H = rng.normal(size=(d, d)) + 1j * rng.normal(size=(d, d))
+        H = (H + H.conj().T) / 2
+        H = H - np.trace(H) / d * np.eye(d)
+        t = np.eye(d) / d + eps * H / (d * np.linalg.norm(H, 2))
+    elif family == "near-equal-eigs":
+        q, _ = np.linalg.qr(rng.normal(size=(d, d)) + 1j * rng.normal(size=(d, d)))
+        w = rng.uniform(0.2, 1.0, size=d)
+        w[1] = w[0] * (1 + eps)
+        t = (q * (w / w.sum())) @ q.conj().T
+    elif family == "near-commuting":
+        own = tab.own if tab.mixed else crho()
+        _, vr = np.linalg.eigh(own)
+        f = rng.uniform(0.1, 1.0, size=d)
+        t = (1 - eps) * (vr * (f / f.sum())) @ vr.conj().T + eps * crho()
+    else:                                    # near-self: 1 - F ~ eps^2
+        own = tab.own if tab.mixed else crho()
+        t = (1 - eps) * own + eps * crho()
+    t = (t + t.conj().T) / 2
+    return t / np.real(np.trace(t))
+
+
 def target_of_case(case, tab):
     if case["target_form"] == "self":
         return tab.own.copy()
@@ -407,12 +532,19 @@ def run_fidelity(ctx, case, tab):
         r = m.call("c10_fidelity_pure", wire_c(tc), wire_c(permuted(tab.psi, perm) if perm else tab.psi), tab.Z)
         ctx.agree("fidelity (pure) vs model", F, r[0], case)
     else:
-        want = uhlmann(t, tab.own)
-        # sqrt of numerically-zero eigenvalues of a rank-deficient product: noise ~ sqrt(1e-16) per zero eigenvalue
-        #   -> 1e-9 only when both spectra are bounded away from zero
-        lam_min = min(float(np.linalg.eigvalsh((t + t.conj().T) / 2).min()), float(np.linalg.eigvalsh(tab.own).min()))
-        tol = 1e-9 if lam_min > 1e-6 else 1e-6
-        ctx.count("mixed_fidelity_tol:%g" % tol)
+        if case.get("near") or case.get("near_pure"):
+            # near-degenerate target or nearly pure model state: exact-arithmetic oracle, tolerance from the spectrum
+            want, spec, okind = uhlmann_hp(t, tab.own)
+            tol = spectrum_tol(want, spec, okind)
+            ctx.count("mixed_fidelity_oracle:%s" % okind)
+            ctx.count("mixed_fidelity_tol(adaptive):1e%d" % int(math.floor(math.log10(tol))))
+        else:
+            want = uhlmann(t, tab.own)
+            # sqrt of numerically-zero eigenvalues of a rank-deficient product: noise ~ sqrt(1e-16) per zero eigenvalue
+            #   -> 1e-9 only when both spectra are bounded away from zero
+            lam_min = min(float(np.linalg.eigvalsh((t + t.conj().T) / 2).min()), float(np.linalg.eigvalsh(tab.own).min()))
+            tol = 1e-9 if lam_min > 1e-6 else 1e-6
+            ctx.count("mixed_fidelity_tol:%g" % tol)
         rho_c = permuted(tab.rho, perm) if perm else tab.rho
         M = m.call("c10_fidelity_mixed_matrix", wire_c(tc), wire_c(rho_c), tab.Z)
         Mc = np.array([[complex(z[0], z[1]) for z in row] for row in M])
@@ -422,7 +554,10 @@ def run_fidelity(ctx, case, tab):
         ctx.agree("matrix handed to eigvals == target @ rho/Z", ser_flat(Mc), ser_flat(tc @ (rho_c / tab.Z)), case)
     ctx.agree_exact("fidelity result kind", 0 if is_plain_number(F) else 1, int(r[1]), case)
     what = "fidelity == |<t|psi>|^2/Z" if not tab.mixed else "fidelity == Uhlmann fidelity"
-    ctx.require(what, abs(F - want) <= tol + 1e-9 * abs(want), case, {"impl": F, "oracle": want})
+    ctx.require(what, abs(F - want) <= tol + 1e-9 * abs(want), case, {"impl": F, "oracle": want, "tol": tol})
+    if case.get("near") or case.get("near_pure"):
+        ratio = abs(F - want) / (tol + 1e-9 * abs(want))
+        ctx.count("near_degenerate |impl-oracle|/tol %s" % ("<=0.01" if ratio <= 0.01 else "<=0.1" if ratio <= 0.1 else "<=0.5" if ratio <= 0.5 else "<=1" if ratio <= 1 else ">1"))
     ctx.require("fidelity in [0,1]", -max(tol, 1e-9) <= F <= 1 + max(tol, 1e-9), case, F)
     if case["target_form"] == "self":
         ctx.require("self-fidelity == 1", abs(F - 1) <= max(tol, 1e-9), case, F)
@@ -772,12 +907,16 @@ def rotate_call_forms(cases):
         yield c
 
 
-def cases_for_state(ctx, base, tab, lite=False):
-    return rotate_call_forms(_cases_for_state(ctx, base, tab, lite))
+def cases_for_state(ctx, base, tab, lite=False, near=None, only_near=False):
+    return rotate_call_forms(_cases_for_state(ctx, base, tab, lite, near, only_near))
 
 
-def _cases_for_state(ctx, base, tab, lite=False):
-    """yield the cases (dicts) exercised on one state (lite: only the fixed-first block)"""
+NEAR_AMP = [1e-6, 1e-5, 1e-4, 1e-3, 3e-3, 1e-2]        # amplitude / weight of the admixture for the families whose metric moves with eps^2
+
+
+def _cases_for_state(ctx, base, tab, lite=False, near=None, only_near=False):
+    """yield the cases (dicts) exercised on one state (lite: only the fixed-first block; near: which near-degenerate cases —
+    'grid' / 'some' (fixed eps grids), 'model' (nearly pure model state), 'random' (log-uniform eps; always in the full stream))"""
     rng = ctx.rng
     nv = base["nv"]
     thorough = ctx.thorough
@@ -794,11 +933,75 @@ def _cases_for_state(ctx, base, tab, lite=False):
             kw_i[0] += 1
             if c.get("bases") is not None:
                 c["bases_container"] = ["list", "tuple", "ndarray"][int(rng.integers(3))]
-        if form != "self":
+        if form.startswith("near:"):
+            c["near"] = form[5:]
+            c["target"] = ser_c(near_target(ctx, tab, c["near"], c["eps"], as_matrix=c.pop("as_matrix", None)))
+        elif form != "self":
             c["target"] = ser_c(rand_target(ctx, tab, form, as_matrix=c.pop("as_matrix", None)))
         return c
 
     d = len(tab.sp)
+
+    # ---- near-degenerate inputs (seed round 4): targets eps away from a special case of the formulas
+    def near_cases(mode):
+        sq = ("near-self", "near-orthogonal")
+
+        def fid(fam, eps, **kw):
+            return with_target(dict({"fn": "fidelity", "eps": float(eps), "theta": float(rng.uniform(0.1, 6.2)),
+                                     "pass_space": bool(rng.random() < 0.7)}, **kw), "near:" + fam)
+
+        def kl(fam, eps, listed, **kw):
+            c = {"fn": "KL", "eps": float(eps), "bases_form": "list" if listed else "none", "pass_space": bool(rng.random() < 0.7)}
+            if listed:
+                c["bases"] = rand_bases(ctx, nv, int(rng.integers(1, 4)), force_y=True)
+            return with_target(dict(c, **kw), "near:" + fam)
+        fams = NEAR_MIXED if tab.mixed else NEAR_PURE
+        klf = ["pure+white", "basis+white", "pure+rand", "rank-k+rand"] if tab.mixed else ["near-basis", "near-self", "near-orthogonal"]
+        if mode == "grid":
+            for fam in fams:
+                full = fam in ("pure+white", "pure+rand")
+                grid = NEAR_AMP if fam in sq else (NEAR_EPS if full else [NEAR_EPS[i] for i in (1, 4, 6, 10)])
+                for eps in grid:
+                    yield fid(fam, eps)
+            for k, fam in enumerate(klf):
+                for eps in ([1e-12, 1e-9, 1e-6, 1e-4] if fam not in sq else [1e-6, 1e-3]):
+                    yield kl(fam, eps, False)
+                    yield kl(fam, eps, True)
+            for eps in (1e-10, 1e-5):        # the other kind of target with tiny non-zero probabilities (bases=None accepts either)
+                yield kl("basis+white" if not tab.mixed else "near-basis", eps, False, as_matrix=not tab.mixed, cross_kind=True)
+        elif mode == "some":
+            for k, fam in enumerate(fams):
+                grid = NEAR_AMP if fam in sq else NEAR_EPS
+                for j in range(3):
+                    yield fid(fam, grid[(k + 4 * j + (j * j)) % len(grid)])
+            for k, fam in enumerate(klf):
+                yield kl(fam, [1e-11, 1e-8, 1e-5][k % 3] if fam not in sq else 1e-4, bool(k % 2))
+        elif mode == "model":
+            # nearly pure MODEL state: the ordinary targets and nearly pure targets against it
+            for form in ("self", "rank-1", "rank-full", "real", "basis", "ghz"):
+                yield with_target({"fn": "fidelity", "pass_space": bool(rng.random() < 0.7)}, form)
+            for fam, eps in (("pure+white", 1e-7), ("pure+rand", 2e-6), ("near-self", 1e-3), ("near-commuting", 1e-6), ("maxmixed+epsH", 1e-5)):
+                yield fid(fam, eps)
+            for form in ("self", "rank-full"):
+                yield with_target({"fn": "KL", "bases_form": "none"}, form)
+                yield with_target({"fn": "KL", "bases_form": "list", "bases": rand_bases(ctx, nv, 2, force_y=True)}, form)
+            yield dict(base, fn="NLL", samples=rand_samples(ctx, nv, 6), sample_bases=[str(b) for b in rng.choice(gen.all_bases(nv), size=6)])
+        else:                                # random stream
+            first = ["pure+white", "pure+rand", "basis+white", "rank-k+rand"] if tab.mixed else ["near-self", "near-orthogonal"]
+            picks = [first[int(rng.integers(len(first)))], first[int(rng.integers(len(first)))]] + \
+                    [fams[int(rng.integers(len(fams)))] for _ in range(2 if tab.mixed else 1)]
+            for fam in picks:
+                e = near_eps(rng)
+                yield fid(fam, math.sqrt(e) if fam in sq else e)
+            for listed in (False, True):
+                fam = klf[int(rng.integers(len(klf)))]
+                e = near_eps(rng)
+                yield kl(fam, math.sqrt(e) if fam in sq else e, listed)
+
+    if near:
+        yield from near_cases(near)
+    if only_near:
+        return
 
     def rperm():
         q = rng.permutation(d).tolist()
@@ -848,6 +1051,7 @@ def _cases_for_state(ctx, base, tab, lite=False):
     # fidelity
     for form in forms:
         yield with_target({"fn": "fidelity", "pass_space": bool(rng.random() < 0.7), "theta": float(rng.uniform(0.1, 6.2))}, form)
+    yield from near_cases("random")
     # KL
     kl_forms = ["self", "complex" if not tab.mixed else "rank-full", "real", "basis", "ghz"]
     if tab.mixed:
@@ -951,7 +1155,7 @@ def change_parameters(ctx, base, s_old, mode=None):
 
 def nontrivial(case):
     if case.get("prev") or case.get("space_perm") or case.get("cross_kind") or case.get("repeated_bases") or case.get("udict") \
-            or case["fn"] == "target_history":
+            or case["fn"] == "target_history" or case.get("near") or case.get("near_pure"):
         return True
     if case["fn"] == "NLL":
         sb = case.get("sample_bases")
@@ -966,7 +1170,7 @@ def nontrivial(case):
 def describe(case):
     d = {k: case.get(k) for k in ("fn", "state", "nv", "nh", "na", "target_form", "bases_form", "bases", "dict_keys", "sample_bases", "pass_space", "target_kw", "bases_container",
                                      "space_perm", "cross_kind", "repeated_bases", "history", "large_bias", "bases_pos", "sb_pos", "via_module",
-                                     "target2_form", "swap_order")}
+                                     "target2_form", "swap_order", "near", "eps", "near_pure")}
     if case.get("udict"):
         d["udict"] = sorted(case["udict"])
         d["u00"] = [v["re"][0][0] for _, v in sorted(case["udict"].items())]
@@ -999,6 +1203,11 @@ def register(ctx, case, kind, nv):
             ctx.count(key)
     if case.get("udict"):
         ctx.count("state dictionary overrides " + "+".join(sorted(case["udict"])))
+    if case.get("near"):
+        ctx.count("near_degenerate_target:%s:%s" % (case["fn"], case["near"]))
+        ctx.count("near_degenerate_eps:1e%d" % int(math.floor(math.log10(case["eps"]) + 1e-9)))
+    if case.get("near_pure"):
+        ctx.count("nearly_pure_model_state:weights_U x 1e%d" % int(math.floor(math.log10(case["near_pure"]) + 1e-9)))
     allb = (case.get("bases") or []) + (case.get("dict_keys") or []) + (case.get("sample_bases") or [])
     if kind == "positive" and any(ch != "Z" for b in allb for ch in b):
         ctx.count("positive_state_rotated_basis")
@@ -1006,20 +1215,23 @@ def register(ctx, case, kind, nv):
         ctx.count("has_Y")
 
 
-def one_state(ctx, kind, shape, large_bias=False, lite=False, udict=False, via_module=False, history_mode=None):
+def one_state(ctx, kind, shape, large_bias=False, lite=False, udict=False, via_module=False, history_mode=None,
+              near=None, only_near=False, near_pure=None):
     nv, nh = shape[0], shape[1]
     na = shape[2] if kind == "mixed" else None
     ctx.torch_seed()
-    base = new_state_case(ctx, kind, nv, nh, na, large_bias=large_bias, udict=udict, via_module=via_module)
+    base = new_state_case(ctx, kind, nv, nh, na, large_bias=large_bias, udict=udict, via_module=via_module, near_pure=near_pure)
     ok, tab = ctx.call("state tables", base, lambda: Tab(build_state(base), kind, u1=u1_of(base)))
     if not ok:
         return
     if not tab.well_conditioned():
         ctx.count("skipped_overflow")
         return
-    for case in cases_for_state(ctx, base, tab, lite=lite):
+    for case in cases_for_state(ctx, base, tab, lite=lite, near=near, only_near=only_near):
         register(ctx, case, kind, nv)
         run_case(ctx, case, tab)
+    if only_near:
+        return
     # ---- history on the SAME object: every metric has been evaluated on tab.s above; now its parameters change
     #      (tiny fit or in-place overwrite) and the metrics are asked again.  Tables for model/oracle: a fresh object.
     s_old = tab.s
@@ -1057,7 +1269,26 @@ def fixed_first(ctx):
         ctx.rng = saved
 
 
+def near_block(ctx):
+    """fixed (seed-independent) near-degenerate block, runs FIRST: targets eps away from pure / rank-deficient / maximally mixed / degenerate /
+    commuting / own state on a fixed eps grid, nearly pure model states, nearly equal / orthogonal / basis vector targets"""
+    saved = ctx.rng
+    ctx.rng = np.random.Generator(np.random.PCG64(20261004))
+    try:
+        one_state(ctx, "mixed", (2, 2, 2), near="grid", only_near=True)
+        one_state(ctx, "mixed", (1, 2, 1), near="some", only_near=True)
+        one_state(ctx, "mixed", (3, 2, 3), near="some", only_near=True)
+        for shape, dl in (((2, 2, 2), 1e-3), ((2, 1, 2), 1e-5), ((3, 2, 2), 1e-4), ((1, 2, 1), 1e-2)):
+            one_state(ctx, "mixed", shape, near="model", only_near=True, near_pure=dl)
+        one_state(ctx, "positive", (2, 3), near="grid", only_near=True)
+        one_state(ctx, "complex", (2, 2), near="grid", only_near=True)
+        one_state(ctx, "complex", (3, 2), near="some", only_near=True)
+    finally:
+        ctx.rng = saved
+
+
 def run(ctx):
+    near_block(ctx)
     fixed_first(ctx)
     draws = 11 if ctx.thorough else 1
     for kind, shs in shapes(ctx).items():
@@ -1074,6 +1305,13 @@ def run(ctx):
             if ctx.thorough or shape[0] not in done:
                 done.add(shape[0])
                 one_state(ctx, kind, shape, udict=True)
+    # nearly pure model states: one draw per size (thorough: every shape, three scales)
+    done = set()
+    for shape in shapes(ctx)["mixed"]:
+        if ctx.thorough or shape[0] not in done:
+            done.add(shape[0])
+            for _ in range(3 if ctx.thorough else 1):
+                one_state(ctx, "mixed", shape, near="model", only_near=True, near_pure=float(10.0 ** ctx.rng.uniform(-5.0, -1.0)))
 
 
 def search(ctx, broken, budget):
@@ -1101,6 +1339,8 @@ def search(ctx, broken, budget):
                 one_state(ctx, kind, shape)
                 if kind != "positive" and len(ctx.failures) == n0:
                     one_state(ctx, kind, shape, lite=True, udict=True)
+                if kind == "mixed" and len(ctx.failures) == n0:
+                    one_state(ctx, kind, shape, near="model", only_near=True, near_pure=float(10.0 ** ctx.rng.uniform(-5.0, -1.0)))
                 if len(ctx.failures) > n0:
                     return ctx.failures[n0]
                 if time.time() - t0 > budget:
